@@ -128,6 +128,7 @@ func runC09(c *Ctx) {
 	checkT0(c)
 	checkT5c(c)
 	checkT8(c)
+	ruleT9(c, "T9")
 	r.Rule("T6f", "the implied slice start is supplied only after `.[`", 1)
 	ruleT6f(c, "T6f")
 
